@@ -1,7 +1,7 @@
 #!/usr/bin/env python3
 """Grammar-directed input generator for C12 / C13 / C14 (DESIGN.md section 7.3, "stream G / D").
 
-  gen_grammar.py --seed N -n K [--depth D] --mode c12|c13|c14 [--avoid-known]
+  gen_grammar.py --seed N -n K [--depth D] --mode c12|c13|c14
 
 Every random choice comes from one PRNG seeded by --seed (and the mode).  One JSON object per
 line on stdout, statistics on stderr.
@@ -9,12 +9,6 @@ line on stdout, statistics on stderr.
   c12  {"hex"}                                  well-formed, statement-complete program
   c13  {"hex","delims","masked","hidden"}       byte offsets; see DESIGN 6/C13
   c14  {"hex","orig_hex","error","at","token","what"}   one mandatory delimiter deleted
-
-An extra key "known": ["F1", ...] is present when the program was deliberately built to contain
-a trigger of a defect already recorded for the pinned tree (DESIGN section 8): F1 (`%do`
-directly followed by a macro call) and F6 (pending-statement flag left set after a datalines
-block: a star comment directly after the block, or the block being the last open-code
-statement of the program).  --avoid-known suppresses these triggers.
 
 All offsets are kept as *character* offsets while a program is assembled (class Frag) and are
 converted to UTF-8 byte offsets when the record is printed.
@@ -39,7 +33,7 @@ Rule for `at` in mode c14 (validated on the implementation, see validate_grammar
    * `)`: the program is cut right before the closing paren of a call; `at` = length of the
      mutated text (finalize_lexing reports at end of input, after trailing hidden tokens).
 """
-import argparse, json, random, sys, collections
+import argparse, json, random, re, sys, collections
 
 # --------------------------------------------------------------------------------------------
 # tables
@@ -106,7 +100,6 @@ class Frag:
         self.hidden = []       # (a, b)
         self.dels = []         # (off, token, error, what, extra)   c14 deletable occurrences
         self.closes = []       # (off, what)                        closing parens (c14 truncation)
-        self.known = set()
         self.last = ""         # last character emitted
         self.noparen = False   # a paren-less user call (+ hidden stuff) ends the text: next significant char must not be '('
         self.endq = False      # text ends with the closing quote of a literal
@@ -117,7 +110,7 @@ class Frag:
         if self.noparen:
             st = s.strip()
             if st[:1] == "(":
-                self.p.append("z")
+                self.p.append(".")     # filler: `%m (` would be read as the call's argument list
                 self.n += 1
                 self.noparen = False
             elif st == "" or (st.startswith("/*") and st.endswith("*/") and st.find("*/") == len(st) - 2):
@@ -170,7 +163,6 @@ class Frag:
         self.hidden += [(a + o, b + o) for a, b in G.hidden]
         self.dels += [(a + o, t, e, w, (x + o if x is not None else None)) for a, t, e, w, x in G.dels]
         self.closes += [(a + o, w) for a, w in G.closes]
-        self.known |= G.known
         self.p.append(s)
         self.n += len(s)
         self.last, self.noparen, self.endq = G.last, G.noparen, G.endq
@@ -181,11 +173,10 @@ MASKCH = ",=;()"
 
 
 class Gen:
-    def __init__(self, rng, depth, mode, avoid_known):
+    def __init__(self, rng, depth, mode):
         self.r = rng
         self.depth = depth
         self.mode = mode
-        self.avoid = avoid_known
         self.macro_level = 0
 
     # ---------------------------------------------------------------- helpers
@@ -272,8 +263,8 @@ class Gen:
         need = False
         if is_namechar(F.last) and (is_namechar(c) or c == "."):
             need = True
-        elif F.endq and c.isalpha():
-            need = True
+        elif F.endq and (c.isalpha() or c == F.last):
+            need = True      # literal suffix letters; '' / "" would read as an escaped quote
         elif F.last == "&" and (is_namestart(c) or c == "&"):
             need = True
         elif F.last == "%" and (is_namestart(c) or c == "*"):
@@ -282,8 +273,8 @@ class Gen:
             need = True
         elif F.last == "*" and c == "/":
             need = True
-        elif F.last == "." and c.isdigit():
-            need = True
+        elif F.last == "." and (c.isdigit() or c in "eE"):
+            need = True      # `1.` + `eq` would read as an exponent without digits
         if need:
             self.ws(F, hidden=hidden)
 
@@ -531,7 +522,9 @@ class Gen:
                 self.sep_if_needed(F, '"')
                 if nr:
                     F.t('"')
-                    F.m(self.ch(["a", "x;y", "a,b", "(", "&a", "%m(1)", ""]))
+                    # NB: the lexer does not carry %nrstr's masking into a "..." inside it (`&a` / `%m(1)` there are
+                    # lexed as macro triggers), so only trigger-free text is generated here
+                    F.m(self.ch(["a", "x;y", "a,b", "(", "& a", "50% off", ""]))
                     F.t('"')
                     F.endq = True
                 else:
@@ -645,10 +638,10 @@ class Gen:
                 self.argval(F, lvl, "free")
 
     # ---------------------------------------------------------------- name expressions
-    def nameexpr(self, F, lvl, where="nameexpr", allow_call_first=True):
+    def nameexpr(self, F, lvl, where="nameexpr", allow_call_first=True, force_call_first=False):
         """nameexpr ::= (name-ish word | mvar | call)+   -- no blanks inside; pieces must not fuse"""
         self.touch(F, lvl)
-        k = self.wch([(10, "name"), (3, "name&"), (2, "&"), (2, "&.name"), (1.5, "mix"), (1.5 if self.can_nest(lvl) else 0, "call")])
+        k = "call" if force_call_first else self.wch([(10, "name"), (3, "name&"), (2, "&"), (2, "&.name"), (1.5, "mix"), (1.5 if self.can_nest(lvl) else 0, "call")])
         if k == "name":
             F.t(self.vname())
         elif k == "name&":
@@ -666,11 +659,9 @@ class Gen:
             if self.p(0.4):
                 self.mvar(F, dots=1)
         else:
-            first = allow_call_first and self.p(0.5)
+            first = force_call_first or (allow_call_first and self.p(0.5))
             if not first:
                 F.t(self.vname())
-            elif where == "do":
-                F.known.add("F1")
             self.nameexpr_call(F, lvl, where)
             if self.p(0.3) and F.last in ").":
                 F.t(self.ch(["_x", "1", "n"]))
@@ -807,6 +798,8 @@ class Gen:
         """ostmt ::= otok (sep otok)* sep? ';'   (first otok is not '*', no datalines word)"""
         self.touch(F, lvl)
         n = self.wch([(2, 1), (3, 2), (4, 3), (3, 4), (2, 6)])
+        pending = False    # the lexer's "a statement has started" flag: macro calls do not set it, and a '*' seen
+        #                    while it is clear starts a star comment (side condition on ostmt, see report)
         for i in range(n):
             k = self.wch([(6, "ident"), (3, "kw"), (2.5, "num"), (1.5, "sq"), (1.5, "dq"), (3 if i else 0.5, "sym"), (2, "mvar"), (3 if self.can_nest(lvl) else 0, "call"), (1, "paren")])
             G = Frag()
@@ -821,13 +814,15 @@ class Gen:
             elif k == "dq":
                 self.dq(G, lvl, call_ok=self.can_nest(lvl))
             elif k == "sym":
-                G.t(self.ch([x for x in SYMBOLS if i or x[0] != "*"]))
+                G.t(self.ch([x for x in SYMBOLS if pending or x[0] != "*"]))
             elif k == "mvar":
                 self.mvar(G, dots=2)
             elif k == "call":
                 self.callish(G, lvl + 1, "ostmt")
             else:
                 G.t("(" + self.ch(["x", "a, b", "1", "a=1", "i+1", ""]) + ")")
+            if k != "call":
+                pending = True
             if i:
                 if self.p(0.7):
                     if self.p(0.15):
@@ -843,14 +838,11 @@ class Gen:
         F.noparen = False
         F.t(";")
         self.after_semi = True
-        self.pend[-1] = False
 
     def starcmt(self, F):
         body = "".join(self.wch([(6, self.ch([" comment", " a b c", " 1", " x=1", "*", " ---- ", "é日本"])), (1, " it's"), (1, ' "q'), (1, " /* c */"), (1, "\n more"), (1, " (a,b"),
                                  (1 if self.macro_level == 0 else 0, " %let x=1"), (1 if self.macro_level == 0 else 0, " %m(1)"), (1, " &a"), (1, " 50% "), (0.5, "")])
                        for _ in range(self.r.randint(0, 3)))
-        if self.pend[-1]:
-            F.known.add("F6")
         F.t("*" + body + ";")
 
     def mcmt(self, F):
@@ -870,15 +862,15 @@ class Gen:
         F.t("\n" + "\n".join(lines) + ("\n" if lines or self.p(0.5) else ""))
         F.t(";;;;" if four else ";")
         self.after_semi = True
-        self.pend[-1] = True      # F6: the implementation leaves the pending-statement flag set
 
     # ---------------------------------------------------------------- macro statements
     def let(self, F, lvl):
         G = Frag()
         self.nameexpr(G, lvl)
         self.kw(F, "let", G)
+        ne = F.n
         self.h(F, p_some=0.3)
-        F.dels.append((F.n, "ASSIGN", "MissingExpectedAssign", "%let=", None))
+        F.dels.append((F.n, "ASSIGN", "MissingExpectedAssign", "%let=", ne))
         F.d("=", "ASSIGN")
         self.h(F, p_some=0.3)
         self.mtext(F, lvl)
@@ -928,8 +920,9 @@ class Gen:
         G = Frag()
         self.nameexpr(G, lvl)
         self.kw(F, "copy", G, must=True)
+        ne = F.n
         self.h(F, p_some=0.5)
-        F.dels.append((F.n, "FSLASH", "MissingExpectedFSlash", "%copy/", None))
+        F.dels.append((F.n, "FSLASH", "MissingExpectedFSlash", "%copy/", ne))
         F.noparen = False
         F.t("/")
         self.h(F, p_some=0.6)
@@ -984,10 +977,12 @@ class Gen:
             F.t(";")
         elif form == "iter":
             G = Frag()
-            self.nameexpr(G, lvl, "do", allow_call_first=(not self.avoid and self.p(0.15)))
+            # `%do %m(..)=1 %to 3;` (the loop variable starts with a call) was defect F1/F3/F4 of the original tree
+            self.nameexpr(G, lvl, "do", force_call_first=self.p(0.08))
             self.kw(F, "do", G, must=True)
+            ne = F.n
             self.h(F, p_some=0.3)
-            F.dels.append((F.n, "ASSIGN", "MissingExpectedAssign", "%do=", None))
+            F.dels.append((F.n, "ASSIGN", "MissingExpectedAssign", "%do=", ne))
             F.d("=", "ASSIGN")
             self.h(F, p_some=0.3)
             self.evalexpr(F, lvl)
@@ -1013,13 +1008,11 @@ class Gen:
             F.dels.append((F.n, "SEMI", "MissingExpectedSemiOrEOF", "%do %" + w + "();", None))
             F.t(";")
         self.after_semi = True
-        self.pend.append(self.pend[-1])
         self.items(F, lvl + 1, self.wch([(1, 0), (4, 1), (4, 2), (2, 3)]))
         self.h(F, hidden=False, p_some=0.7)
         self.kw(F, "end", None, p_some=0.15)
         F.dels.append((F.n, "SEMI", "MissingExpectedSemiOrEOF", "%end;", None))
         F.t(";")
-        self.pend.pop()
         self.after_semi = True
 
     def mdef(self, F, lvl):
@@ -1055,13 +1048,11 @@ class Gen:
         F.t(";")
         self.after_semi = True
         self.macro_level += 1
-        self.pend.append(False)
         self.items(F, lvl + 1, self.wch([(1, 0), (3, 1), (4, 2), (3, 3), (1, 4)]))
         self.h(F, hidden=False, p_some=0.8)
         self.kw(F, "mend", name if self.p(0.6) else None, p_some=0.2)
         self.h(F, p_some=0.15)
         F.t(";")
-        self.pend.pop()
         self.macro_level -= 1
         self.after_semi = True
 
@@ -1070,7 +1061,7 @@ class Gen:
         nest = self.can_nest(lvl)
         c13 = self.mode == "c13"
         c14 = self.mode == "c14"
-        return [(1.0, "cstyle"), (0 if (self.avoid and self.pend[-1]) else 1.2, "starcmt"), (1.0, "mcmt"), (5 if c13 else 4, "ostmt"),
+        return [(1.0, "cstyle"), (1.2, "starcmt"), (1.0, "mcmt"), (5 if c13 else 4, "ostmt"),
                 (1.0 if self.after_semi and not c13 else 0, "dlblock"), (4, "let"), (3, "put"), (0.8, "locglob"), (0.8, "goto"), (1.5 if c14 else 0.6, "return"),
                 (3 if nest else 1, "if"), (3.5 if nest else 0.5, "do"), (3 if nest else 0.3, "mdef"), (0.5, "label"), (1.5 if c14 else 0.5, "copy")]
 
@@ -1121,15 +1112,8 @@ class Gen:
     def program(self, stats):
         F = Frag()
         self.after_semi = True
-        self.pend = [False]
         self.macro_level = 0
         self.items(F, 0, self.wch([(3, 1), (4, 2), (4, 3), (2, 4), (1, 6)]), stats)
-        if self.pend[-1]:
-            if self.avoid:
-                F.t("\n", keep=True)
-                self.ostmt(F, 0)
-            else:
-                F.known.add("F6")
         if self.p(0.4):
             F.t(self.ch(["\n", " ", "\n\n", "\n/* end */\n"]), keep=True)
         return F
@@ -1172,6 +1156,17 @@ def mutations(F):
                 continue
             if tok == "SEMI" and at >= len(m):
                 continue
+            nxt = m[at] if at < len(m) else ""
+            if at == off and off > 0 and is_namechar(m[off - 1]) and is_namechar(nxt):
+                continue      # `%eval(x)` -> `%evalx)`, `%end;d` -> `%endd`: the keyword fuses with what follows
+            if tok in ("ASSIGN", "FSLASH"):
+                # The delimiter follows a name expression (extra = its end).  A name expression ends at the first
+                # blank; comments do not end it.  Without a blank between the name and the text after the deleted
+                # delimiter the name simply continues (`%let a=1;` -> `%let a1;`, `%let a/**/=&b;` -> name `a&b`),
+                # so there is no "place where the delimiter should have been".
+                gap = re.sub(r"/\*.*?\*/", "", m[extra:at], flags=re.S)
+                if not any(c.isspace() for c in gap) and (is_namechar(nxt) or nxt in "&%."):
+                    continue
         out.append((m, err, at, tok, what))
     for off, what in F.closes:
         assert s[off] == ")", (s, off)
@@ -1210,10 +1205,9 @@ def main():
     ap.add_argument("-n", type=int, default=100)
     ap.add_argument("--depth", type=int, default=3)
     ap.add_argument("--mode", choices=["c12", "c13", "c14"], required=True)
-    ap.add_argument("--avoid-known", action="store_true", help="do not generate triggers of the known defects F1/F6")
     a = ap.parse_args()
     rng = random.Random(a.seed * 1000003 + {"c12": 12, "c13": 13, "c14": 14}[a.mode])
-    g = Gen(rng, a.depth, a.mode, a.avoid_known)
+    g = Gen(rng, a.depth, a.mode)
     stats = collections.Counter()
     depth_h = collections.Counter()
     len_h = collections.Counter()
@@ -1236,8 +1230,6 @@ def main():
             rec = {"hex": s.encode("utf-8").hex(), "delims": sorted([t[o], ty] for o, ty in F.delims), "masked": sorted(t[o] for o in F.masked),
                    "hidden": [[t[x], t[y]] for x, y in merge_ranges(F.hidden)]}
         else:
-            if "F1" in F.known:
-                continue      # the original must be lexable
             ms = mutations(F)
             if not ms:
                 continue
@@ -1248,8 +1240,6 @@ def main():
             t = boff(m)
             rec = {"hex": m.encode("utf-8").hex(), "orig_hex": s.encode("utf-8").hex(), "error": err, "at": t[at], "token": tok, "what": what}
             what_h[what] += 1
-        if F.known and a.mode != "c14":
-            rec["known"] = sorted(F.known)
         out.write(json.dumps(rec) + "\n")
         k += 1
         stats.update(st)
